@@ -1,76 +1,46 @@
 (* C06 — non-2xx responses always raise a status-carrying, class-correct error.
    Only statements, [exact], and Print Assumptions live here.
-
-   The FULL statement
-     forall kind spec op st, 100 <= st <= 599 -> ~ (200 <= st < 300) -> C06_spec (call kind spec op st) st
-   is FALSE on the faithful model (and on the implementation): see C06_refuted_F06a..d below. *)
+   With the findings F06a-d fixed the FULL statement holds on the model; no guard is left. *)
 From PG Require Import Lib.Strs Model.Dispatch Proofs.Dispatch.
 
-(* Under the executable guard, for every transport kind, every package (list of operations of any shape and
-   length), every operation in it and every status 100..599 outside 200-299: the call raises an exception whose
-   class is a subclass of HTTPError, carrying that status and the response, a subclass of ClientError for 4xx and
-   of ServerError for 5xx. *)
-Theorem C06_partial : forall k s o st,
-  In o s -> status_ok st -> guard k s o st = true -> C06_spec (call k s o st) st.
-Proof. exact partial. Qed.
-Print Assumptions C06_partial.
+(* For every transport kind (bundled HttpxTransport / a transport returning every response unraised), every package
+   (list of operations of any shape and length), every operation and every status 100..599 outside 200-299: the
+   call raises an exception whose class is a subclass of HTTPError, carrying that status and the response; a
+   subclass of ClientError for 4xx and of ServerError for 5xx. *)
+Theorem C06_full : forall k s o st, status_ok st -> C06_spec (call k s o st) st.
+Proof. exact full. Qed.
+Print Assumptions C06_full.
 
-(* The guard is exact: wherever it is false the conclusion is false (so guard = true <-> conclusion). *)
-Theorem C06_guard_exact : forall k s o st,
-  status_ok st -> C06_spec (call k s o st) st -> guard k s o st = true.
-Proof. exact guard_exact. Qed.
-Print Assumptions C06_guard_exact.
+(* the alias import of the endpoints module can no longer fail (former F06d) *)
+Theorem C06_imports_always : forall s, imports_ok s = true.
+Proof. exact imports_always. Qed.
+Print Assumptions C06_imports_always.
 
-(* What does hold for BOTH transports and all statuses once F06c/F06d are excluded:
-   never a value; an HTTPError instance carrying the status and the response. *)
-Theorem C06_partial_status : forall k s o st,
-  In o s -> status_ok st -> guard_F06c k o st = true -> guard_F06d s = true -> C06_weak_spec (call k s o st) st.
-Proof. exact weak. Qed.
-Print Assumptions C06_partial_status.
+(* regression: the witnesses of the fixed findings *)
+Theorem C06_fixed_F06a : call Bundled [op_F06a] op_F06a 404 = Raised ClientError 404 true
+  /\ call Bundled [op_F06a] op_F06a 503 = Raised ServerError 503 true
+  /\ call Bundled [op_F06a] op_F06a 302 = Raised HTTPError 302 true.
+Proof. exact fixed_F06a. Qed.
+Print Assumptions C06_fixed_F06a.
+Theorem C06_fixed_F06b : call Custom [op_F06b] op_F06b 404 = Raised ClientError 404 true
+  /\ call Custom [op_F06b] op_F06b 500 = Raised ServerError 500 true.
+Proof. exact fixed_F06b. Qed.
+Print Assumptions C06_fixed_F06b.
+Theorem C06_fixed_F06c : call Custom [op_F06c] op_F06c 500 = Raised ServerError 500 true
+  /\ call Custom [op_F06c] op_F06c 201 = Returned.
+Proof. exact fixed_F06c. Qed.
+Print Assumptions C06_fixed_F06c.
+Theorem C06_fixed_F06d : call Custom [op_F06d] op_F06d 302 = Raised HTTPError 302 true
+  /\ call Custom [op_F06d] op_F06d 404 = Raised ClientError 404 true
+  /\ call Custom [op_F06d] op_F06d 200 = Returned.
+Proof. exact fixed_F06d. Qed.
+Print Assumptions C06_fixed_F06d.
 
-Theorem C06_refuted_F06a :
-  status_ok 404 /\ guard_F06a Bundled 404 = false /\ guard_F06b Bundled op_F06a 404 = true
-  /\ guard_F06c Bundled op_F06a 404 = true /\ guard_F06d [op_F06a] = true
-  /\ call Bundled [op_F06a] op_F06a 404 = Raised HTTPError 404 true
-  /\ ~ C06_spec (call Bundled [op_F06a] op_F06a 404) 404.
-Proof. exact refuted_F06a. Qed.
-Print Assumptions C06_refuted_F06a.
-
-(* F06a is a whole class: every 4xx/5xx through the bundled transport, whatever the operation declares *)
-Theorem C06_refuted_F06a_all : forall s o st, 400 <= st < 600 -> ~ C06_spec (call Bundled s o st) st.
-Proof. exact F06a_all. Qed.
-Print Assumptions C06_refuted_F06a_all.
-
-Theorem C06_refuted_F06b :
-  status_ok 404 /\ guard_F06a Custom 404 = true /\ guard_F06b Custom op_F06b 404 = false
-  /\ guard_F06c Custom op_F06b 404 = true /\ guard_F06d [op_F06b] = true
-  /\ call Custom [op_F06b] op_F06b 404 = Raised HTTPError 404 true
-  /\ ~ C06_spec (call Custom [op_F06b] op_F06b 404) 404.
-Proof. exact refuted_F06b. Qed.
-Print Assumptions C06_refuted_F06b.
-
-Theorem C06_refuted_F06c :
-  status_ok 500 /\ guard_F06a Custom 500 = true /\ guard_F06b Custom op_F06c 500 = true
-  /\ guard_F06c Custom op_F06c 500 = false /\ guard_F06d [op_F06c] = true
-  /\ call Custom [op_F06c] op_F06c 500 = Returned
-  /\ ~ C06_weak_spec (call Custom [op_F06c] op_F06c 500) 500.
-Proof. exact refuted_F06c. Qed.
-Print Assumptions C06_refuted_F06c.
-
-Theorem C06_refuted_F06d :
-  status_ok 302 /\ guard_F06a Custom 302 = true /\ guard_F06b Custom op_F06d 302 = true
-  /\ guard_F06c Custom op_F06d 302 = true /\ guard_F06d [op_F06d] = false
-  /\ (forall k st, call k [op_F06d] op_F06d st = ImportFails)
-  /\ ~ C06_weak_spec (call Custom [op_F06d] op_F06d 302) 302.
-Proof. exact refuted_F06d. Qed.
-Print Assumptions C06_refuted_F06d.
-
-Theorem C06_guard_nonvacuous :
-  guard Custom [op_ok] op_ok 404 = true /\ call Custom [op_ok] op_ok 404 = Raised (Alias 404) 404 true
-  /\ guard Custom [op_ok] op_ok 503 = true /\ call Custom [op_ok] op_ok 503 = Raised (Alias 503) 503 true
-  /\ guard Custom [op_ok] op_ok 302 = true /\ guard Bundled [op_ok] op_ok 302 = true.
-Proof. exact guard_nonvacuous. Qed.
-Print Assumptions C06_guard_nonvacuous.
+(* the per-status aliases are still raised where declared *)
+Theorem C06_alias_branch_live :
+  call Custom [op_ok] op_ok 404 = Raised (Alias 404) 404 true /\ call Custom [op_ok] op_ok 503 = Raised (Alias 503) 503 true.
+Proof. exact alias_branch_live. Qed.
+Print Assumptions C06_alias_branch_live.
 
 (* the three copies of _get_primary_response compute the same function *)
 Theorem C06_primary_agree : forall o, primary_rs o = primary_eu o.
